@@ -26,9 +26,11 @@ BROKEN = [("bad.commitatsend.seal", "SealEpochMonotone"), ("bad.commitatsend.arr
           ("bad.commitatsend.auth", "WriteEpochAuthorised"), ("bad.anyepoch", "UnauthorisedEpochRejected"),
           ("bad.noreplay", "AtMostOnceUnmodified"), ("bad.returnonsend", "UpdateKeysReturnsAfterAck"),
           ("bad.successor.keys", "KeySuccession"), ("bad.successor.arrival", "ArrivalDelivers")]
-SAFE = {"quick": ["a", "b", "c", "d", "e", "f"], "thorough": ["a", "b", "c", "d", "f"]}
-GEN = {"quick": [("a", False, 1500), ("b", True, 1000), ("c", False, 1300), ("d", False, 1000), ("e", False, 400)],
-       "thorough": [("a", False, 12000), ("b", True, 8000), ("c", False, 8000)]}
+SAFE = {"quick": ["a", "b", "c", "d", "e", "f"], "thorough": ["a", "b", "c", "d", "f", "g"]}
+# (generation cfg, TicketPending, scripts sampled); the thorough tier replays (almost) every edge of the same graphs
+GEN = {"quick": [("quick.a", False, 1500), ("quick.b", True, 1000), ("quick.c", False, 1300), ("quick.d", False, 1000), ("quick.e", False, 400)],
+       "thorough": [("quick.a", False, 22000), ("quick.b", True, 13100), ("quick.c", False, 16000), ("quick.d", False, 12800),
+                    ("quick.e", False, 6300)]}
 
 VIOLATION_WHAT = {
     "updatekeys-returned-before-ack": "UpdateKeys returned nil before the peer's ACK of that KeyUpdate was received",
@@ -66,7 +68,7 @@ def generate(chk):
 
     def work(name):
         try:
-            out[name] = vlib.tlc_generate(MODULE, "%s.gen.%s.%s.cfg" % (MODULE, chk.tier, name), timeout=1500,
+            out[name] = vlib.tlc_generate(MODULE, "%s.gen.%s.cfg" % (MODULE, name), timeout=1500,
                                           java_opts="-Xmx3g")
         except Exception as ex:  # noqa: BLE001
             errs.append(ex)
@@ -149,7 +151,7 @@ def replay_scripts(chk, binary):
                                   "distinct_edges_covered": len(covered), "write_generations_committed": commits,
                                   "successor_secrets_checked": secrets, "payloads_read": delivered,
                                   "UpdateKeys_returned": returned, "scripts_diverging": diverged}
-    if commits == 0 or returned == 0 or delivered == 0 or steps < 1000:
+    if (commits == 0 or returned == 0 or delivered == 0 or steps < 1000) and not chk.violations:
         raise vlib.Inconclusive("vacuous script replay (%d steps, %d commits, %d returns, %d payloads)" % (steps, commits, returned, delivered))
     if diverged > max(3, len(rows) // 50) and not chk.violations:
         raise vlib.Inconclusive("model diverges from the implementation on %d of %d scripts (see notes)" % (diverged, len(rows)))
